@@ -29,7 +29,7 @@ TRUSTED_BASE = ["z3 (uninterpreted functions + linear real arithmetic)"]
 
 
 def proof_jobs(tier):
-    return [("function", fc, None, K.hooks) for fc in K.contracts()]
+    return [("function", fc, None, K.hooks) for fc in K.contracts() + K.constructor_contracts()]
 
 
 # ----------------------------------------------------------------------------- bounded
@@ -196,7 +196,66 @@ def bounded(tier, seed, procs):
             if want[0] == "val" and not (got[0] == "val" and got[1] == want[1]):
                 b2.fail(Failure("non-commuting", f"program={i} tree={built[1] if built[0] == 'val' else None!r}", dict(kind="mat", program=i),
                                 expected=outcome.describe(want), actual=outcome.describe(got), functions=["Product.__mul__", "Expression.__mul__"]))
-    return [b, b2]
+    return [b, b2, b_constructors(tier)]
+
+
+class _Obj:
+    """Plain object with attributes and a method, the counterpart of attribute / call syntax."""
+
+    def __init__(self, v):
+        self.re = v
+        self.im = v + 100
+
+    def method(self, t, k=0):
+        return 3 * t + 7 * k + self.re
+
+
+def b_constructors(tier):
+    """Call, subscript and attribute syntax and the comparison / logical constructor methods."""
+    import pymbolic.primitives as p
+    from pymbolic.mapper.evaluator import EvaluationMapper
+    b = BoundedRun("constructor-syntax", rule="programs written with subscript syntax (every index kind: 0, 1, -1, 0.0, False, True, a variable, a sum that is zero, tuples of "
+                   "length 1..2, EmptyOK), call syntax (0..3 positional and keyword arguments, nested), attribute syntax (.attr(name), .a.name) and the constructor methods "
+                   "eq/ne/lt/le/gt/ge/not_/and_/or_, alone and inside arithmetic: the tree built on Variables, evaluated, equals the same program on plain Python objects",
+                   bound="~120 programs x 3 environments", functions=["Expression.__getitem__", "Expression.__call__", "Expression.attr", "Expression.a",
+                                                                     "Expression.eq/ne/lt/le/gt/ge", "Expression.not_/and_/or_"])
+    a, f, o, i, j = (p.Variable(n) for n in ("a", "f", "o", "i", "j"))
+    envs = [dict(a=[10, 20, 30, 40], f=lambda *t, **k: sum(t) * 2 + sum(v * 5 for v in k.values()) + 1, o=_Obj(4), i=0, j=1, m={(0,): 7, (0, 1): 8, (1, 0): 9, (1,): 6}),
+            dict(a=[-1, 0, 5, 2], f=lambda *t, **k: len(t) + 10 * len(k), o=_Obj(-2), i=2, j=0, m={(2,): 1, (2, 0): 2, (0, 2): 3, (0,): 4}),
+            dict(a=(3, 1, 4, 1), f=lambda *t, **k: 42, o=_Obj(0), i=1, j=1, m={(1,): 5, (1, 1): 0}),]
+    m = p.Variable("m")
+    progs = {
+        "a[0]": lambda a, f, o, i, j, m: a[0], "a[1]": lambda a, f, o, i, j, m: a[1], "a[-1]": lambda a, f, o, i, j, m: a[-1], "a[False]": lambda a, f, o, i, j, m: a[False],
+        "a[True]": lambda a, f, o, i, j, m: a[True], "a[i]": lambda a, f, o, i, j, m: a[i], "a[i-i]": lambda a, f, o, i, j, m: a[i - i], "a[i+j]": lambda a, f, o, i, j, m: a[i + j],
+        "a[0]+a[1]+a[2]": lambda a, f, o, i, j, m: a[0] + a[1] + a[2], "a[0]*a[1]": lambda a, f, o, i, j, m: a[0] * a[1], "a[a[0]*0]": lambda a, f, o, i, j, m: a[a[0] * 0],
+        "m[i,]": lambda a, f, o, i, j, m: m[i,], "m[i,j]": lambda a, f, o, i, j, m: m[i, j], "m[(i,j)]": lambda a, f, o, i, j, m: m[(i, j)],
+        "f()": lambda a, f, o, i, j, m: f(), "f(i)": lambda a, f, o, i, j, m: f(i), "f(i,j)": lambda a, f, o, i, j, m: f(i, j), "f(i,j,3)": lambda a, f, o, i, j, m: f(i, j, 3),
+        "f(k=i)": lambda a, f, o, i, j, m: f(k=i), "f(i,k=j,l=2)": lambda a, f, o, i, j, m: f(i, k=j, l=2), "f(f(i),f(j))": lambda a, f, o, i, j, m: f(f(i), f(j)),
+        "f(a[0])+1": lambda a, f, o, i, j, m: f(a[0]) + 1, "f(0)": lambda a, f, o, i, j, m: f(0), "f(0,0)": lambda a, f, o, i, j, m: f(0, 0),
+        "o.attr(re)": (lambda a, f, o, i, j, m: o.attr("re"), lambda a, f, o, i, j, m: o.re), "o.a.im": (lambda a, f, o, i, j, m: o.a.im, lambda a, f, o, i, j, m: o.im),
+        "o.a.re+a[0]": (lambda a, f, o, i, j, m: o.a.re + a[0], lambda a, f, o, i, j, m: o.re + a[0]),
+        "o.attr(method)(i,k=j)": (lambda a, f, o, i, j, m: o.attr("method")(i, k=j), lambda a, f, o, i, j, m: o.method(i, k=j)),
+        "i.eq(j)": (lambda a, f, o, i, j, m: i.eq(j), lambda a, f, o, i, j, m: i == j), "i.ne(j)": (lambda a, f, o, i, j, m: i.ne(j), lambda a, f, o, i, j, m: i != j),
+        "i.lt(j)": (lambda a, f, o, i, j, m: i.lt(j), lambda a, f, o, i, j, m: i < j), "i.le(j)": (lambda a, f, o, i, j, m: i.le(j), lambda a, f, o, i, j, m: i <= j),
+        "i.gt(j)": (lambda a, f, o, i, j, m: i.gt(j), lambda a, f, o, i, j, m: i > j), "i.ge(j)": (lambda a, f, o, i, j, m: i.ge(j), lambda a, f, o, i, j, m: i >= j),
+        "i.lt(0)": (lambda a, f, o, i, j, m: i.lt(0), lambda a, f, o, i, j, m: i < 0), "(i+j).ge(a[0])": (lambda a, f, o, i, j, m: (i + j).ge(a[0]), lambda a, f, o, i, j, m: (i + j) >= a[0]),
+        "i.eq(j).not_()": (lambda a, f, o, i, j, m: i.eq(j).not_(), lambda a, f, o, i, j, m: not (i == j)),
+        "i.lt(j).and_(j.lt(2))": (lambda a, f, o, i, j, m: i.lt(j).and_(j.lt(2)), lambda a, f, o, i, j, m: bool((i < j) and (j < 2))),
+        "i.lt(j).or_(j.eq(0))": (lambda a, f, o, i, j, m: i.lt(j).or_(j.eq(0)), lambda a, f, o, i, j, m: bool((i < j) or (j == 0))),
+    }
+    for name, pr in progs.items():
+        build, plain = pr if isinstance(pr, tuple) else (pr, pr)
+        built = outcome.run(lambda: build(a, f, o, i, j, m))
+        for env in envs:
+            want = outcome.run(lambda: plain(env["a"], env["f"], env["o"], env["i"], env["j"], env.get("m")))
+            if want[0] != "val":
+                continue
+            b.case((name, repr(env["i"]), repr(env["j"])), sample=dict(program=name, tree=repr(built[1])[:120] if built[0] == "val" else None))
+            got = outcome.run(lambda: EvaluationMapper(env)(built[1])) if built[0] == "val" else built
+            if not (got[0] == "val" and outcome.same_value(got[1], want[1], typed=False)):
+                b.fail(Failure("constructor-syntax", f"program={name} i={env['i']} j={env['j']} tree={built[1] if built[0] == 'val' else None!r}", dict(kind="ctor", program=name),
+                               expected=outcome.describe(want), actual=outcome.describe(got)[:200], functions=["Expression.__getitem__", "Expression.__call__", "Expression.attr"]))
+    return b
 
 
 def replay(case):
